@@ -133,6 +133,11 @@ macro_rules! bad_param_harness {
     ($name:ident, $sid:expr, $l:expr) => {
         #[kani::proof]
         #[kani::unwind(2)]
+        #[kani::stub(mzcore::init_tree, mzcore::verif::cut_init_tree)]
+        #[kani::stub(mzcore::decode_huffman_code, mzcore::verif::cut_decode_huffman_code)]
+        #[kani::stub(mzcore::decompress_fast, mzcore::verif::cut_decompress_fast)]
+        #[kani::stub(mzcore::transfer, mzcore::verif::cut_transfer)]
+        #[kani::stub(mzcore::apply_match, mzcore::verif::cut_apply_match)]
         fn $name() {
             bad_param($sid, $l)
         }
